@@ -86,9 +86,9 @@ class RecGeneratorClass(metaclass=_GeneratorMeta):
     """stands in for the class `numpy.random.Generator` while instrumenting: `Generator(PCG64(seed))` is the other way (besides default_rng) of
     making a generator; isinstance checks keep working"""
 
-    def __new__(cls, bit_generator):
+    def __new__(cls, *args, **kwargs):
         hook = _GEN_HOOK[0]
-        return hook(bit_generator) if hook is not None else _ORIG_GENERATOR(bit_generator)
+        return hook(*args, **kwargs) if hook is not None else _ORIG_GENERATOR(*args, **kwargs)
 _SS_LOG = [None]          # the event list of the active Instr (None: not instrumenting)
 
 
@@ -96,14 +96,15 @@ class RecSeedSequence(_ORIG_SEEDSEQ):
     """numpy.random.SeedSequence that records when it is created WITHOUT entropy (= OS entropy): `SeedSequence(None)` is how
     a seed of None / a dropped seed turns into an irreproducible generator without any call of default_rng()"""
 
-    def __init__(self, entropy=None, **kw):
-        super().__init__(entropy, **kw)
+    def __init__(self, *args, **kwargs):          # checklist item 21: any positional / keyword form is forwarded unchanged
+        super().__init__(*args, **kwargs)
+        entropy = args[0] if args else kwargs.get("entropy")
         self.verif_fresh = entropy is None
         if entropy is None and _SS_LOG[0] is not None:
             _SS_LOG[0].append("FRESH.seedseq")
 
-    def spawn(self, n_children):
-        kids = super().spawn(n_children)
+    def spawn(self, *args, **kwargs):
+        kids = super().spawn(*args, **kwargs)
         for k in kids:
             try:
                 k.verif_fresh = self.verif_fresh
@@ -144,6 +145,7 @@ class Instr:
         self.stages = []
         self._saved = {}
         self.tag_ids = tag_ids          # tag every seeded generator by creation order: G1, G2, ...
+        self.wrapper_errors = []        # checklist item 21: calls a recording wrapper could not interpret (forwarded anyway): a tie matter
         self.n_seeded = 0
 
     def make_g(self, seed):
@@ -169,8 +171,9 @@ class Instr:
         self._bg_tags = {}
 
         def mk_bg(cls):
-            def factory(seed=None, *a, **k):
-                bg = cls(seed, *a, **k)
+            def factory(*a, **k):
+                bg = cls(*a, **k)
+                seed = a[0] if a else k.get("seed")
                 fresh = seed is None or getattr(seed, "verif_fresh", False)
                 if fresh:
                     log.append("FRESH.newgen")
@@ -181,9 +184,10 @@ class Instr:
             self._saved[name] = getattr(np.random, name)
             setattr(np.random, name, mk_bg(self._saved[name]))
 
-        def generator(bit_generator):
+        def generator(*a, **k):
+            bit_generator = a[0] if a else k.get("bit_generator")
             ent = self._bg_tags.get(id(bit_generator))
-            g = _ORIG_GENERATOR(bit_generator)
+            g = _ORIG_GENERATOR(*a, **k)
             if ent is None or ent[0] is not bit_generator:
                 return g                         # a bit generator made outside the instrumented region: not traced (as before)
             tag = ent[1]
@@ -201,7 +205,11 @@ class Instr:
         self._ss_prev = _SS_LOG[0]
         _SS_LOG[0] = log
 
-        def default_rng(seed=None):
+        def default_rng(*a, **k):
+            seed = a[0] if a else k.get("seed")
+            if len(a) > 1 or set(k) - {"seed"}:              # a form this wrapper does not know: forward it untraced, the tie will notice
+                self.wrapper_errors.append("default_rng called with %d positional / %s keyword arguments" % (len(a), sorted(k)))
+                return _ORIG_DEFAULT_RNG(*a, **k)
             if isinstance(seed, RecGen):
                 return seed                  # numpy: default_rng(generator) returns the generator itself
             if isinstance(seed, _ORIG_BITGEN) and id(seed) in self._bg_tags:
@@ -673,7 +681,12 @@ def op_cli_prepare(case, G, ins, tmp):
             top = depth["d"] == 0
             depth["d"] += 1
             if top:
-                rec = {"stage": stage, "start": len(ins.events), "shape": shape_fn(*a, **k)}
+                try:
+                    shape = shape_fn(orig, a, k)
+                except Exception as e:               # the wrapper could not interpret the call: recorded, the call is forwarded unchanged
+                    shape = None
+                    ins.wrapper_errors.append("%s.%s: %s: %s" % (getattr(owner, "__name__", owner), name, type(e).__name__, str(e)[:120]))
+                rec = {"stage": stage, "start": len(ins.events), "shape": shape}
                 stages.append(rec)
             try:
                 return orig(*a, **k)
@@ -684,19 +697,24 @@ def op_cli_prepare(case, G, ins, tmp):
         saved.append((owner, name, orig))
         setattr(owner, name, w)
 
-    def _scr(a, k):
-        return k.get("screen", a[1] if len(a) > 1 else (a[0] if a else None))
+    def _bound(orig, a, k):
+        """the arguments by NAME, however they were passed (inspect.signature(original).bind)"""
+        import inspect
+        return inspect.signature(orig).bind(*a, **k).arguments
     wrap(C.InitialRetrospectivePlateGenerator, "generate_and_unmask_initial_plate", "cover",
-         lambda *a, **k: {"n": len(np.unique(_scr(a, k).sample_ids))})
-    wrap(C.RetrospectivePlateGenerator, "generate_plates", "gen", lambda *a, **k: {"toks": shape_generator(a[0], _scr(a, k))})
-    wrap(C.RetrospectivePlateSmoother, "smooth_plates", "smooth", lambda *a, **k: {"obj": a[0], "screen_raw": canon_rows(_scr(a, k))})
-    wrap(M, "create_plate_balanced_holdout_set_among_masked_plates", "hold", lambda *a, **k: {"toks": shape_holdout(k.get("screen", a[0] if a else None))})
+         lambda o, a, k: {"n": len(np.unique(_bound(o, a, k)["screen"].sample_ids))})
+    wrap(C.RetrospectivePlateGenerator, "generate_plates", "gen", lambda o, a, k: {"toks": shape_generator(_bound(o, a, k)["self"], _bound(o, a, k)["screen"])})
+    wrap(C.RetrospectivePlateSmoother, "smooth_plates", "smooth",
+         lambda o, a, k: {"obj": _bound(o, a, k)["self"], "screen_raw": canon_rows(_bound(o, a, k)["screen"])})
+    wrap(M, "create_plate_balanced_holdout_set_among_masked_plates", "hold", lambda o, a, k: {"toks": shape_holdout(_bound(o, a, k)["screen"])})
     try:
         _run_main(M, argv)
     finally:
         for owner, name, orig in saved:
             setattr(owner, name, orig)
     out = canon_screen(Screen.load_h5(tr)) + "|" + canon_screen(Screen.load_h5(te))
+    if ins.wrapper_errors or any(st["shape"] is None for st in stages):
+        return None, [], out              # no model line can be built: the oracles still apply, the tie is reported by judge
     toks = ["init=%d" % (1 if case.get("init") is not None else 0)]
     for st in stages:
         cnt = st["end"] - st["start"]
@@ -936,6 +954,7 @@ def execute(case, second):
             finally:
                 _VERBOSE[0] = False
         res["gstate_same"] = (global_sig() == before)
+        res["wrapper_errors"] = list(getattr(ins, "wrapper_errors", []))
         if case["op"].startswith("cli_"):
             res["files"] = digest_dir(tmp)
     finally:
@@ -974,6 +993,11 @@ def judge(case, res, queue=None):
     A = execute(case, False)
     B = execute(case, True)
     op = case["op"]
+    werr = (A.get("wrapper_errors") or []) + (B.get("wrapper_errors") or [])
+    if werr:
+        # checklist item 21: a recording wrapper of the harness met a call form it does not know -- a broken TIE, never an oracle failure
+        res.count("wrapper.unexpected-call")
+        res.disagree("C18:recording-wrapper:" + op, {"op": op}, "harness wrapper: " + werr[0][:300], "a call form the recording wrapper can interpret")
     if op == "cli_analyze":
         return judge_analyze(case, A, B, res)
     label = op + ("" if in_scope(case) else ":norng")
@@ -1193,14 +1217,14 @@ def make_stub(d):
             self.x = np.zeros(d)
             self.t = 0
 
-        def set_rng(self, rng):
-            self._rng = rng
+        def set_rng(self, *a, **k):
+            self._rng = a[0] if a else next(iter(k.values()))
 
         @property
         def rng(self):
             return self._rng
 
-        def step(self):
+        def step(self, *a, **k):
             self.x = self.x + self.rng.normal(size=d)
             self.t += 1
 
